@@ -52,7 +52,7 @@ EXIT_MAP = [0, 1, 12]
 def BOUNDS(tier):
     if tier == "quick":
         return {"plans": [[3, 2], [4, 1]]}
-    return {"plans": [[4, 2], [5, 1]]}
+    return {"plans": [[3, 3], [4, 2], [5, 1]]}
 
 
 def units(tier):
